@@ -160,6 +160,27 @@ class Ctx:
                             stack.append(qn + suffix)
         return seen
 
+    def reachable(self):
+        """functions that the public API can still reach (private helpers whose every call was inlined are not)"""
+        if getattr(self, '_reachable', None) is None:
+            roots = []
+            for local, q in self.p.exports.items():
+                fn = self.p.resolve_func(q)
+                if fn is not None:
+                    roots.append(fn.fq)
+            for fq, f in self.p.funcs.items():
+                if f.cls is not None and (not f.name.startswith('_') or f.name.startswith('__')):
+                    roots.append(fq)
+            clo = self.closure(*roots)
+            # methods called through self. are reached through their class
+            for fq, f in self.p.funcs.items():
+                if f.cls is not None:
+                    for nd, c, callee, q in self.calls().get(fq, []):
+                        if callee is not None:
+                            clo |= self.closure(callee.fq)
+            self._reachable = clo | set(roots)
+        return self._reachable
+
     def check_acyclic(self):
         calls = self.calls()
         color = {}
